@@ -8,7 +8,9 @@ CONSTANTS Oct,        \* IPv4 octet values, full product Oct^4 (no port)
           G6,         \* IPv6 group values, full product G6^8 (no port)
           G6First,    \* partition: values of the first group handled by this run
           Ports,      \* port values crossed with the representative addresses below
-          PathLens    \* UNIX path lengths
+          PathLens,   \* UNIX path lengths
+          PortLo, PortHi,   \* every port PortLo..PortHi on one IPv4 and one IPv6 address (empty when PortLo > PortHi)
+          Seed, NRand       \* NRand pseudo-random IPv4 and IPv6 addresses with pseudo-random ports, from Seed
 VARIABLE c
 
 \* representative addresses for the port sweep: every text length class / zero-run position
@@ -21,6 +23,10 @@ Rep6 == { <<0,0,0,0,0,0,0,0>>, <<0,0,0,0,0,0,0,1>>, <<8193,3512,0,0,0,0,0,1>>, <
 
 Path(n) == <<cSLASH>> \o [i \in 1..(n - 1) |-> IF i % 10 = 0 THEN cSLASH ELSE 97 + (i % 26)]
 
+\* seeded pseudo-random 16-bit values: three steps of the 65537 Lehmer generator (everything < 2^31)
+Mix(x) == ((x % 65537) * 75 + 74) % 65537
+Rnd16(i, j) == Mix(Mix(Mix((Seed % 65536) * 7 + i * 131 + j * 31337))) % 65536
+
 Init == c = [k |-> "start"]
 NextV4 == c.k = "start" /\ \E o1 \in Oct, o2 \in Oct, o3 \in Oct, o4 \in Oct :
              c' = [k |-> "fmt", fam |-> "4", a |-> <<o1, o2, o3, o4>>, port |-> 0]
@@ -29,7 +35,17 @@ NextV6 == c.k = "start" /\ \E g1 \in G6First, g2 \in G6, g3 \in G6, g4 \in G6, g
 NextPort4 == c.k = "start" /\ \E a \in Rep4, p \in Ports : c' = [k |-> "fmt", fam |-> "4", a |-> a, port |-> p]
 NextPort6 == c.k = "start" /\ \E a \in Rep6, p \in Ports : c' = [k |-> "fmt", fam |-> "6", a |-> a, port |-> p]
 NextUnix == c.k = "start" /\ \E n \in PathLens : c' = [k |-> "fmt", fam |-> "u", a |-> Path(n), port |-> 0]
-Next == NextV4 \/ NextV6 \/ NextPort4 \/ NextPort6 \/ NextUnix
+NextSweep4 == c.k = "start" /\ \E p \in PortLo..PortHi : c' = [k |-> "fmt", fam |-> "4", a |-> <<192, 168, 1, 1>>, port |-> p]
+NextSweep6 == c.k = "start" /\ \E p \in PortLo..PortHi :
+                 c' = [k |-> "fmt", fam |-> "6", a |-> <<8193, 3512, 0, 0, 0, 0, 0, 1>>, port |-> p]
+NextRand4 == c.k = "start" /\ \E i \in 1..NRand :
+                 c' = [k |-> "fmt", fam |-> "4", port |-> Rnd16(i, 5),
+                       a |-> <<Rnd16(i, 1) % 256, Rnd16(i, 2) % 256, Rnd16(i, 3) % 256, Rnd16(i, 4) % 256>>]
+NextRand6 == c.k = "start" /\ \E i \in 1..NRand :
+                 c' = [k |-> "fmt", fam |-> "6", port |-> Rnd16(i, 19),
+                       a |-> <<Rnd16(i, 11), Rnd16(i, 12), Rnd16(i, 13), Rnd16(i, 14),
+                               Rnd16(i, 15), Rnd16(i, 16), Rnd16(i, 17), Rnd16(i, 18)>>]
+Next == NextV4 \/ NextV6 \/ NextPort4 \/ NextPort6 \/ NextUnix \/ NextSweep4 \/ NextSweep6 \/ NextRand4 \/ NextRand6
 Spec == Init /\ [][Next]_c
 
 IsCase == c.k = "fmt"
